@@ -516,6 +516,8 @@ def gate(F, R):
                 elif d.get('terminate') is False and (d.get('interrupted') is False or d.get('endint') is True): expect = 0
                 if expect is not None and rv != expect:
                     ok = False; why = 'blocking helper returns %s on the path with %s' % (rv, d)
+                if 'terminate' not in d:
+                    ok = False; why = 'a path of the blocking helper decides without testing the terminate flag (facts on the path: %s): an end-interrupt event is processed although another region is terminated' % d
             if sorted(set(kinds)) != ['endint', 'interrupted', 'terminate']: ok = False; why = 'blocking helper consults %s' % sorted(set(kinds))
             # C11.type: the end-interrupt flag is looked up for the decayed event type
             ta = f.targs() or []
